@@ -127,6 +127,12 @@ impl Check for C04 {
                         if !cands.is_empty() {
                             w.docs[r].commit();
                             let h = rng.pick(&cands).clone();
+                            if cx.verbose && std::env::var("VERIF_DUMP").is_ok() {
+                                let _ = std::fs::create_dir_all("/verif/out/dump");
+                                let mut c = w.docs[r].clone();
+                                let _ = std::fs::write(format!("/verif/out/dump/iso-R{r}.bin"), c.save());
+                                let _ = std::fs::write(format!("/verif/out/dump/iso-R{r}.txt"), format!("actor {}\nheads {:?}\n", c.get_actor().to_hex_string(), hash_hex(&h)));
+                            }
                             w.docs[r].isolate(&h);
                             w.logln(format!("R{r}: isolate({:?})", hash_hex(&h)));
                             // the commit above may have created a change: account for it first
